@@ -468,12 +468,21 @@ def rule_placeholders(ctx):
     if not tr:
         ctx.violation("worker::Worker::<T>::run|truncate|0", site(run, qb), "placeholders (idx = u32::MAX) are never cut off the match list: readers would dereference item u32::MAX")
     for bi, t in tr:
-        gs = [g for g in guards_of(run, bi) if g[3][0] == "call" and g[3][1] == "par_sort::par_quicksort"]
-        if gs and all(g[2] == [0] for g in gs):
+        # the sort's verdict, possibly through negations (`let finished = !par_quicksort(..); if !finished { return }`)
+        gs = []
+        for g in guards_of(run, bi):
+            ge_ = strip_casts(g[3])
+            par_ = 0
+            while ge_[0] == "un" and ge_[1] == "Not":
+                ge_ = strip_casts(ge_[2]); par_ += 1
+            if ge_[0] == "call" and ge_[1] == "par_sort::par_quicksort":
+                cancelled_edge = (g[2] != [0]) if par_ % 2 == 0 else (g[2] == [0])
+                gs.append(cancelled_edge)
+        if gs and not any(gs):
             n = strip_casts(run.expr_of_operand(t["args"][1]))
             good = n[0] in ("bin", "checked") and n[1] == "Sub" and n[2][0] == "call" and str(n[2][1]).endswith("::len") and field_chain(n[2][2][0])[1] == ["matches"]
             cnt = strip_casts(n[3]) if good else None
-            from_counter = cnt is not None and any(x[0] == "call" and str(x[1]).endswith("Atomic::<u32>::get_mut") for x in walk(cnt))
+            from_counter = cnt is not None and any(x[0] == "call" and (str(x[1]).endswith("Atomic::<u32>::get_mut") or str(x[1]).endswith("Atomic::<u32>::into_inner")) for x in walk(cnt))
             if good and from_counter:
                 ctx.ok(site(run, bi), "matches.truncate(len − unmatched) only after a completed sort")
             else:
